@@ -39,6 +39,7 @@ import MosaikModel.Closure
 import MosaikProofs.Lemmas.Tiered
 import MosaikProofs.Closure.Sound
 import MosaikProofs.Closure.Complete
+import MosaikProofs.Build.RunConfig
 namespace Mosaik.C06
 open Mosaik TI
 
@@ -287,5 +288,15 @@ example : ensureNoCycles [{ inputDelays := [(1, ⟨1, 1, [0]⟩)] }, { inputDela
 simulator X (B → X → A): the weak step is erased, the cycle is unresolved -/
 example : (pathSum ⟨2, 2, [0, 0]⟩ [⟨2, 2, [0, 1]⟩]).isZero = false := by decide
 example : (pathSum ⟨2, 2, [0, 1]⟩ [⟨2, 1, [0]⟩, ⟨1, 1, [0, 0]⟩]).isZero = true := by decide
+
+/-- **exactness for every built scenario**: the shape and one-entry-per-predecessor hypotheses of `cycle_check_exact` are
+consequences of how `connect` builds the tables (`Build.BuiltOk`, by induction over the calls); what remains is `Uniform`
+(the complement of finding D7) and that the check decides -/
+theorem cycle_check_exact_built (ops : List Build.Op) (hv : Build.Valid {} ops) (orc : List Nat)
+    (hU : Uniform (Build.build ops).sims) (hdec : ∀ e, ensureNoCycles (Build.build ops).sims orc ≠ .error e) :
+    (∃ p, ensureNoCycles (Build.build ops).sims orc = .cycle p) ↔
+      ∃ s p d, RealPath (Build.build ops).sims s s p d ∧ d.isZero = true :=
+  cycle_check_exact _ orc (Build.built_shaped (Build.build_builtOk ops {} Build.builtOk_empty hv))
+    (Build.built_nodupKeys (Build.build_builtOk ops {} Build.builtOk_empty hv)) hU hdec
 
 end Mosaik.C06
